@@ -45,7 +45,7 @@ structure KvSt where
 def dashStr (s : String) : String := if s == "-" then "" else unhexStr s
 
 /-- `c19kv`: the FILE-LEVEL model (`Fs.step`, `Fs.issue`, `Fs.exec`, `Fs.listAll` — the functions of
-    `fs_refines_map`, `crash_never_tears`, `async_last_issued_wins`) against FilesystemStore(V2):
+    `fs_refines_map`, `crash_never_tears`, `async_last_issued_wins`, `async_any_interleaving`) against FilesystemStore(V2):
     sync calls, planted artifacts + restart, the directory contents, async issue / completion orders. -/
 def c19kv : Drv where
   σ := KvSt
@@ -79,7 +79,10 @@ def c19kv : Drv where
     | ["ax", id] =>
       (match s.pend.find? (fun e => e.1 == nat! id) with
        | none => (s, "bad-op")
-       | some e => ({ s with st := Fs.exec s.st e.2, pend := s.pend.filter (fun e' => e'.1 != nat! id) }, "ok"))
+       | some e =>
+         -- the body as its two steps (`async_any_interleaving`): prep outside the lock, commit under it
+         let s2 := Fs.commit2 (Fs.prep2 { st := s.st } e.2) e.2
+         ({ s with st := s2.st, pend := s.pend.filter (fun e' => e'.1 != nat! id) }, "ok"))
     | _ =>
       match mkOp ws with
       | some op => run op
